@@ -119,7 +119,7 @@ func c03RunCtx(cs c03Case) (res c03Res) {
 		res.OpHist[kind]++
 		fmu.Unlock()
 	}
-	client, peer, err := peers.NewClient(cliVersion(), sftp.MaxPacketUnchecked(cs.MaxPacket))
+	client, peer, err := peers.NewClient(cliVersion(), c03Opts(cs)...)
 	if err != nil {
 		fail("tie/new-client", err.Error(), nil)
 		return
